@@ -312,6 +312,10 @@ class Worker(metaclass=SupportClassPropertiesMeta):
             > nor that they won't. This might change in the future, so that the behaviour is consistent at least in the case of ``user_state``,
             > if proven beneficial.
         '''
+        if self._started and not self.is_child:
+            # some workers (process workers) receive the final state together with the final result,
+            # which is only fetched on demand after the child has died
+            self._get_result()
         return self._user_state
 
     @user_state.setter
